@@ -477,13 +477,17 @@ def source_cfg():
     canon = 'path = strings.TrimSuffix(path, "/")' in cg
     rcfix = "hasRefCountMessage(oh)" in wr
     m3 = re.search(r"maxGroupDepth\s*=\s*(\d+)", src("file.go"))
+    gr = src("group.go")
+    lo = gr[gr.index("func loadObject("):]
+    lo = lo[:lo.index("\n}\n")]
+    cyc_err = "file.loading[address]" not in lo       # loadObject handles the enclosing-group case itself
     return dict(heap_cap=int(m1.group(1)), snod_cap=int(m1.group(2)), soft_max=244, max_depth=int(m3.group(1)) if m3 else 0,
-                strict_names=strict, canon_group_key=canon, rc_rollback_fix=rcfix)
+                strict_names=strict, canon_group_key=canon, rc_rollback_fix=rcfix, cycle_is_error=cyc_err)
 
 
 def c_cfg(cfg):
-    return "{| heap_cap := %d; snod_cap := %d; soft_max := %d; max_depth := %d; strict_names := %s; canon_group_key := %s; rc_rollback_fix := %s |}" % (
-        cfg["heap_cap"], cfg["snod_cap"], cfg["soft_max"], cfg["max_depth"], vlib.cbool(cfg["strict_names"]), vlib.cbool(cfg["canon_group_key"]), vlib.cbool(cfg["rc_rollback_fix"]))
+    return "{| heap_cap := %d; snod_cap := %d; soft_max := %d; max_depth := %d; strict_names := %s; canon_group_key := %s; rc_rollback_fix := %s; cycle_is_error := %s |}" % (
+        cfg["heap_cap"], cfg["snod_cap"], cfg["soft_max"], cfg["max_depth"], vlib.cbool(cfg["strict_names"]), vlib.cbool(cfg["canon_group_key"]), vlib.cbool(cfg["rc_rollback_fix"]), vlib.cbool(cfg["cycle_is_error"]))
 
 
 def c_link(case, res, groups, rcs, cfg):
